@@ -9,6 +9,8 @@ from common import SPEC, WORK, MachineryError, run_tlc
 
 ACC = "snax_alu"
 FIELDS = ["a", "b"]
+ACC_B = "acc_b"
+FIELDS_B = ["p", "q"]
 # value choices of an invocation: they share values field-wise so that deduplication has something to remove and something to keep
 CHOICES = {1: ("%v0", "%v1"), 2: ("%v0", "%v2"), 3: ("IV", "%v1"), 4: ("%v2", "IV")}
 
@@ -65,7 +67,7 @@ def render(tokens, acc=ACC, fields=FIELDS, launch=()):
             opened.append(None)
         elif t == ")":
             opened.pop()
-        elif t.startswith("I") or t == "C":
+        elif t.startswith("I") or t.startswith("J") or t == "C":
             for o in opened:
                 if o is not None:
                     dirty[o] = True
@@ -83,6 +85,15 @@ def render(tokens, acc=ACC, fields=FIELDS, launch=()):
             emit(f'"accfg.await"({tk}) : (!accfg.token<"{ACC}">) -> ()')
             scopes[-1].append(s)
             last[0], last[1] = s, len(kinds)
+        elif t.startswith("J"):
+            # an invocation on a second accelerator (its own state chain; calls with effects clobber both)
+            vals = CHOICES[int(t[1:])]
+            used.update(vals)
+            s, tk = fresh("u"), fresh("w")
+            args = ", ".join(f'"{f}" = {v} : i32' for f, v in zip(FIELDS_B, vals))
+            emit(f'{s} = accfg.setup "{ACC_B}" to ({args}) : !accfg.state<"{ACC_B}">')
+            emit(f'{tk} = "accfg.launch"({s}) <{{param_names = [], accelerator = "{ACC_B}"}}> : (!accfg.state<"{ACC_B}">) -> !accfg.token<"{ACC_B}">')
+            emit(f'"accfg.await"({tk}) : (!accfg.token<"{ACC_B}">) -> ()')
         elif t == "F":
             i = fresh("i")
             emit(f"scf.for {i} = %c0 to %n0 step %c1 {{")
